@@ -425,6 +425,13 @@ func genCase(t *rapid.T) Case {
 			for j := rapid.IntRange(0, 12).Draw(t, "nf"); j > 0; j-- {
 				o.Fields = append(o.Fields, pool[rapid.IntRange(0, len(pool)-1).Draw(t, "f")])
 			}
+			if !tpl && rapid.IntRange(0, 15).Draw(t, "zero_width") == 0 {
+				// a record that has fields and no bytes: every field an octet array of fixed length 0
+				o.Fields = nil
+				for j := rapid.IntRange(1, 3).Draw(t, "nzero"); j > 0; j-- {
+					o.Fields = append(o.Fields, ref.Field{ID: 999, Ent: glue.UserEnt, Len: 0, Type: ref.TOctets, Name: "userFixedOctets0"})
+				}
+			}
 			if !tpl {
 				o.Vals = gen.Record(t, o.Fields, rapid.SampledFrom([]int{20, 300, 300, 66000}).Draw(t, "maxvar"))
 				o.Spare = rapid.SampledFrom([]int{0, 0, 1, 5, 8}).Draw(t, "spare")
